@@ -278,8 +278,9 @@ func main() {
 			ZeroOK: func(p string) bool {
 				return p == "internal/cpu" || p == "internal/bytealg" || p == "unsafe" || p == "internal/godebug" || p == "internal/race"
 			},
-			Witness: *witness,
-			Stubs:   run.Stubs,
+			Witness:    *witness,
+			CrossEvery: crossEvery(*tier),
+			Stubs:      run.Stubs,
 			Tolerant: func(p string) bool {
 				return p == "encoding/json" || p == "net/http" || p == "net/textproto" || p == "mime" || p == "log/slog" || p == "go/types"
 			},
@@ -479,6 +480,18 @@ func contains(xs []string, x string) bool {
 		}
 	}
 	return false
+}
+
+// crossEvery: how often an assertion query is re-decided by z3-new and cvc5.
+func crossEvery(tier string) int {
+	if v := os.Getenv("VERIF_CROSS_EVERY"); v != "" {
+		n, _ := strconv.Atoi(v)
+		return n
+	}
+	if tier == "thorough" {
+		return 200
+	}
+	return 2000
 }
 
 var cleanupDir string
